@@ -37,12 +37,12 @@ type uRow struct {
 }
 
 type uLog struct {
-	xid      string
-	branch   int64
-	context  []byte
-	info     []byte
-	status   int64
-	present  bool
+	xid     string
+	branch  int64
+	context []byte
+	info    []byte
+	status  int64
+	present bool
 }
 
 type uSchema struct {
@@ -71,14 +71,14 @@ func (s uSchema) col(name string) int {
 }
 
 type uDB struct {
-	scanKind int // how the non-key columns scan: 0 nullable BIGINT, 1 BIGINT NOT NULL, 2 BIGINT UNSIGNED NOT NULL
-	schema uSchema
-	rows   []uRow // committed state
-	logs   []uLog
-	wrows  []uRow // state inside the open transaction
-	wlogs  []uLog
-	inTx   bool
-	openTx int
+	scanKind  int // how the non-key columns scan: 0 nullable BIGINT, 1 BIGINT NOT NULL, 2 BIGINT UNSIGNED NOT NULL
+	schema    uSchema
+	rows      []uRow // committed state
+	logs      []uLog
+	wrows     []uRow // state inside the open transaction
+	wlogs     []uLog
+	inTx      bool
+	openTx    int
 	openConns int
 
 	ops     int
@@ -493,9 +493,9 @@ func uTableMeta(s uSchema) *types.TableMeta {
 
 type uParser struct{ log *undo.BranchUndoLog }
 
-func (uParser) GetName() string                                { return "json" }
-func (uParser) GetDefaultContent() []byte                      { return []byte("{}") }
-func (uParser) Encode(*undo.BranchUndoLog) ([]byte, error)     { return []byte("undo"), nil }
+func (uParser) GetName() string                            { return "json" }
+func (uParser) GetDefaultContent() []byte                  { return []byte("{}") }
+func (uParser) Encode(*undo.BranchUndoLog) ([]byte, error) { return []byte("undo"), nil }
 func (p uParser) Decode([]byte) (*undo.BranchUndoLog, error) {
 	// a fresh copy per decode, as a real decoder produces
 	cp := &undo.BranchUndoLog{Xid: p.log.Xid, BranchID: p.log.BranchID}
